@@ -195,13 +195,69 @@ def build(rng):
     return pr
 
 
+DIRECTED = 10 ** 9      # scenario seeds from here on name members of the directed family
+
+
+def directed_count():
+    return len(_directed_specs())
+
+
+def _directed_specs():
+    out = []
+    for shape in ("or2", "or3", "or_and", "nand", "implies", "and_or"):
+        for value in (True, False):
+            for pre in ("none", "lit", "or"):
+                out.append((shape, value, pre))
+    return out
+
+
+def build_directed(j):
+    """one action whose conditional effect has a condition with several disjuncts in disjunctive normal form (every state is explored, so each
+    disjunct is the only true one somewhere), next to an unconditional effect; with and without a (disjunctive) precondition"""
+    shape, value, pre = _directed_specs()[j % directed_count()]
+    pr = MultiAgentProblem("D")
+    T = UserType("T")
+    o1 = Object("o1", T)
+    pr.add_objects([o1])
+    pub = Fluent("pub", BoolType(), x=T)
+    g = Fluent("g", BoolType())
+    pr.ma_environment.add_fluent(pub, default_initial_value=False)
+    pr.ma_environment.add_fluent(g, default_initial_value=False)
+    for i in range(2):
+        ag = Agent(f"ag{i + 1}", pr)
+        has = Fluent("has", BoolType(), x=T)
+        flag = Fluent("flag", BoolType())
+        mark = Fluent("mark", BoolType())
+        ag.add_fluent(has, default_initial_value=False)
+        ag.add_fluent(flag, default_initial_value=False)
+        ag.add_fluent(mark, default_initial_value=False)
+        act = InstantaneousAction("take", x=T)
+        a, b, c = has(act.x), flag(), pub(act.x)
+        cond = {"or2": Or(a, b), "or3": Or(a, Not(b), c), "or_and": Or(And(a, Not(c)), b), "nand": Not(And(a, b)),
+                "implies": Implies(a, And(b, c)), "and_or": And(Or(a, b), Or(Not(a), c))}[shape]
+        if pre == "lit":
+            act.add_precondition(Not(g()))
+        elif pre == "or":
+            act.add_precondition(Or(g(), Not(c)))
+        act.add_effect(mark(), value, cond)
+        if i == 0:
+            act.add_effect(g(), True)
+        else:
+            act.add_effect(g(), False, Or(b, c))        # a second multi-disjunct condition in the same action
+        ag.add_action(act)
+        pr.add_agent(ag)
+    a1 = pr.agent("ag1")
+    pr.add_goal(Dot(a1, a1.fluent("mark")))
+    return pr
+
+
 def project(state, keys):
     return {k: state[k] for k in keys}
 
 
 def scenario(seed, which, failures, stats):
     rng = random.Random(seed)
-    pr = build(rng)
+    pr = build(rng) if seed < DIRECTED else build_directed(seed - DIRECTED)
     label = {"seed": seed, "compiler": which}
 
     def bad(what, observed=None):
@@ -380,16 +436,17 @@ def bounded(tier, seed):
     failures, stats = [], {"n": 0, "distinct": set(), "unsupported": 0}
     with warnings.catch_warnings():
         warnings.simplefilter("ignore")
-        for i in range(n):
+        # directed family first (independent of the random stream), then the generated problems
+        for i in [DIRECTED + j for j in range(directed_count())] + [seed * 100003 + k for k in range(n)]:
             for which in ("ce", "dc"):
                 try:
-                    scenario(seed * 100003 + i, which, failures, stats)
+                    scenario(i, which, failures, stats)
                 except IllFormed as ex:
-                    failures.append({"what": f"generated problem ill-formed (harness): {ex}", "concrete": {"seed": seed * 100003 + i}, "observed": None})
+                    failures.append({"what": f"generated problem ill-formed (harness): {ex}", "concrete": {"seed": i}, "observed": None})
             if len(failures) >= 10:
                 break
     return {"evaluations": stats["n"], "distinct_nontrivial": len(stats["distinct"]), "failures": failures[:10],
-            "rule": f"{n} generated two-agent problems x 2 compilers x all 2^k states over the ground Boolean fluents (k <= 12) x every ground action; "
+            "rule": f"{directed_count()} directed problems (conditional effects whose condition has several disjuncts) + {n} generated two-agent problems x 2 compilers x all 2^k states over the ground Boolean fluents (k <= 12) x every ground action; "
                     f"unsupported kinds skipped: {stats['unsupported']}",
             "samples": [{"unsupported_skipped": stats["unsupported"]}], "bound": f"{n} problems, all states (k<=12)"}
 
